@@ -399,10 +399,19 @@ func (r Rect) IntersectsCell(c Cell) bool {
 	vertices := [4]Point{}
 	latlngs := [4]LatLng{}
 
+	// A cell vertex within rounding error of the rectangle counts as contained.
+	// The crossing tests below are exact for the rounded points they are given,
+	// so a rectangle edge that runs within an ulp of a cell edge (or crosses
+	// another cell edge within an ulp of a cell vertex) can be missed by all of
+	// them, for the cells on both sides of that edge. The margin covers the
+	// rounding of the vertex, of its latitude/longitude and of the rectangle's
+	// corner points; erring on the side of "intersects" is what Region requires.
+	nearRect := r.expanded(LatLng{8 * dblEpsilon, 8 * dblEpsilon})
+
 	for i := range vertices {
 		vertices[i] = c.Vertex(i)
 		latlngs[i] = LatLngFromPoint(vertices[i])
-		if r.ContainsLatLng(latlngs[i]) {
+		if nearRect.ContainsLatLng(latlngs[i]) {
 			return true
 		}
 		if c.ContainsPoint(PointFromLatLng(r.Vertex(i))) {
